@@ -439,7 +439,11 @@ func (t Table) Lookup(req *http.Request, trace string, pick picker, match matche
 		if target = t.lookup(h, req.URL.Path, trace, pick, match); target != nil {
 			if target.RedirectCode != 0 {
 				req.URL.Host = req.Host
-				target.BuildRedirectURL(req.URL) // build redirect url and cache in target
+				// build the redirect url on a copy since the
+				// target is shared between concurrent requests
+				redirect := *target
+				redirect.BuildRedirectURL(req.URL)
+				target = &redirect
 				if target.RedirectURL.Scheme == req.Header.Get("X-Forwarded-Proto") &&
 					target.RedirectURL.Host == req.Host &&
 					target.RedirectURL.Path == req.URL.Path {
